@@ -207,6 +207,18 @@ def lean_stage(prop_modules, extra_targets=()):
         if "AUDIT-END" not in r.stdout:
             res.ok = False
             res.failed.append(f"audit of {mod} did not complete: {(r.stdout + r.stderr)[-300:]}")
+    # thorough tier: independent re-check of the compiled property modules with leanchecker
+    if os.environ.get("VERIF_LEANCHECKER") == "1":
+        for mod in prop_modules:
+            if mod.replace(".", "/") + ".lean" in " ".join(res.failed):
+                continue
+            r = _run(["lake", "env", "leanchecker", mod], cwd=LEAN_DIR, timeout=1800)
+            res.log += r.stdout + r.stderr
+            res.leanchecker = getattr(res, "leanchecker", {})
+            res.leanchecker[mod] = r.returncode
+            if r.returncode != 0:
+                res.ok = False
+                res.failed.append(f"leanchecker rejects {mod}: {(r.stdout + r.stderr)[-300:]}")
     res.forbidden = lean_source_scan()
     if res.forbidden:
         res.ok = False
@@ -300,6 +312,8 @@ class Check:
     # ---- Lean ------------------------------------------------------------------------------
     def lean_stage(self, prop_modules, extra_targets=()):
         self.prop_modules = list(prop_modules)
+        if self.thorough:
+            os.environ["VERIF_LEANCHECKER"] = "1"
         self.lean = lean_stage(prop_modules, extra_targets)
         if getattr(self.lean, "driver_broken", False) and not any("Gen/" in f for f in self.lean.failed):
             # model itself does not compile and no regenerated table is involved: our own bug
@@ -350,6 +364,8 @@ class Check:
                                   " && lake env lean <#audit_module per property module> (harness/common.py lean_stage)")
             cov["trusted_base"] = TRUSTED_BASE + cov.get("trusted_base_extra", [])
             cov.pop("trusted_base_extra", None)
+            if getattr(lean, "leanchecker", None):
+                cov["leanchecker"] = lean.leanchecker
             if lean.failed:
                 cov["failed_obligations"] = lean.failed
             # a broken proof obligation with no failing input found by the search
